@@ -189,6 +189,9 @@ class C09(Check):
         plan["busy_once"] = [list(e_) for e_ in rng.sample(edges_, min(len(edges_), rng.choice([1, 2, 4])))] if rng.random() < 0.25 else []
         plan["reset"] = rng.random() < 0.2
         plan["offer_reset"] = rng.random() < 0.8
+        # ECU model dimension: the reboot happens a little AFTER the positive response to ECUReset (well inside the 0.5 s the
+        # scanner waits before it pings the ECU again)
+        plan["reset_delay"] = rng.choice([0.0, 0.004, 0.05, 0.3]) if plan["reset"] else 0.0
         plan["db"] = rng.random() < 0.4
         # an earlier, finished scan of the same target in the same database (its session_transition rows must not influence this scan)
         plan["prior_depth"] = rng.choice([None, None, 2, 3, 4]) if plan["db"] and len(g) <= 6 else None
@@ -259,6 +262,7 @@ class C09(Check):
         world.install(capture=lambda r: getattr(r, "tags", None) == ["result"])
         ecu = GraphECU(graph, offer_reset=plan["offer_reset"], refuse_nrc=plan.get("refuse_nrc"))
         ecu.busy_once = {tuple(e_) for e_ in plan.get("busy_once") or []}
+        ecu.reset_delay = plan.get("reset_delay", 0.0)
         kw: dict[str, Any] = {}
         if plan["db"]:
             kw["db"] = tmp / "db.sqlite"
@@ -371,6 +375,8 @@ class C09(Check):
             bump(res["faults"], "thorough")
         if plan["reset"]:
             bump(res["faults"], "reset_between_probes")
+        if ecu.late_resets:
+            bump(res["faults"], "ecu_reboots_after_acknowledging_the_reset", ecu.late_resets)
         if plan.get("prior_depth"):
             bump(res["faults"], "earlier_scan_in_same_database")
         if getattr(ecu, "busy_fired", 0):
